@@ -549,6 +549,7 @@ pub fn c09(rec: &mut Rec, rng: &mut Rng, thorough: bool) {
         cfg.witness = true;
         cfg.reconnect = true;
         cfg.max_clients = 4;
+        cfg.big = rng.chance(1, 2); // clients that never read responses larger than the socket buffer
         let mut sim = run_history(rec, rng, cfg, "misbehaving");
         // some clients never read their responses
         // the witness keeps doing round trips
@@ -670,6 +671,8 @@ pub fn c10(rec: &mut Rec, rng: &mut Rng, thorough: bool) {
         let mut cfg = Cfg::base("C10");
         cfg.max_clients = 13;
         cfg.reconnect = true;
+        // closes with unsent output: some responses exceed the socket buffer and stay partially written
+        cfg.big = true;
         let mut sim = Sim::new(rec, cfg);
         let cycles = rng.range(1, 3);
         for _ in 0..cycles {
@@ -707,10 +710,15 @@ pub fn c10(rec: &mut Rec, rng: &mut Rng, thorough: bool) {
                         if !sim.w.held.is_empty() {
                             let idx = rng.below(sim.w.held.len());
                             sim.respond(rec, rng, idx);
+                            if rng.chance(2, 3) {
+                                sim.poll(rec);
+                            }
                         }
                     }
                     4 => {
-                        sim.w.client_read(rec, i);
+                        if rng.chance(1, 2) {
+                            sim.w.client_read(rec, i);
+                        }
                     }
                     _ => sim.w.close(rec, i),
                 }
